@@ -16,6 +16,8 @@ def build(sc):
 
 class MyBase(BaseException): pass
 class UpstreamTimeout(TimeoutError): pass
+import uuid as _uuid, decimal as _decimal
+TRACE = _uuid.UUID(int=7); AMOUNT = _decimal.Decimal('1.10')
 class EmptyAggregate(Exception):          # a legal exception that is FALSY (an aggregate of sub-errors with __len__, raised with none): `if exc:` is not `if exc is not None:`
     def __len__(self): return len(self.args)
 class Unprintable(Exception):          # a legal exception whose str()/repr() raise (a broken __str__ in user code): formatting it eagerly inside an error path raises again
@@ -44,17 +46,21 @@ async def one(cfg):
     def mk_mw(i, is_async):
         if is_async:
             class MW(TaskiqMiddleware):
-                async def pre_execute(self, message): ev.append(('pre_execute', i, message.task_id)); boom('pre_execute', i); return message
+                async def pre_execute(self, message): ev.append(('pre_execute', i, message.task_id)); boom('pre_execute', i); return super().pre_execute(message)          # cooperative: hands the message to the base class hook, which returns it
                 async def on_error(self, message, result, exception): ev.append(('on_error', i, type(exception).__name__)); boom('on_error', i)
                 async def post_execute(self, message, result): ev.append(('post_execute', i)); boom('post_execute', i)
                 async def post_save(self, message, result): ev.append(('post_save', i)); boom('post_save', i)
         else:
             class MW(TaskiqMiddleware):
-                def pre_execute(self, message): ev.append(('pre_execute', i, message.task_id)); boom('pre_execute', i); return message
+                def pre_execute(self, message):
+                    ev.append(('pre_execute', i, message.task_id)); boom('pre_execute', i)
+                    message.labels['trace'] = TRACE; message.labels['amount'] = AMOUNT          # a worker-side middleware keeps information of its own in the labels (any Python object: labels are Dict[str, Any])
+                    return message
                 def on_error(self, message, result, exception): ev.append(('on_error', i, type(exception).__name__)); boom('on_error', i)
                 def post_execute(self, message, result): ev.append(('post_execute', i)); boom('post_execute', i)
                 def post_save(self, message, result): ev.append(('post_save', i)); boom('post_save', i)
-        return MW()
+        class Derived(MW): pass          # the hooks are INHERITED from an intermediate class (a project subclass that only changes defaults): they are still overridden hooks
+        return Derived()
     class Plain(TaskiqMiddleware): pass
     b = InMemoryBroker().with_result_backend(RB())
     if cfg['ack_async']: b = b.with_middlewares(mk_mw(0, False), Plain(), mk_mw(2, True))          # both registration helpers are exercised
@@ -132,15 +138,18 @@ async def late_registration(validate=True):
     from taskiq.abc.broker import AsyncBroker
     AsyncBroker.global_task_registry = {}
     b = InMemoryBroker(); r = Receiver(b, max_async_tasks=2, run_startup=False, validate_params=validate); seen = []
-    async def t(x: int, ctx: Context = TaskiqDepends(), m: 'Optional[PostponedModel]' = None):          # the last annotation is a STRING (postponed evaluation, PEP 563 style)
-        seen.append((x, ctx.message.task_id, True) if (m is None or isinstance(m, PostponedModel) or not validate) else (x, ctx.message.task_id, 'string annotation not resolved: m arrived as ' + type(m).__name__))
+    import typing as _ty
+    async def t(x: int, ctx: Context = TaskiqDepends(), m: 'Optional[PostponedModel]' = None, ms: _ty.List['PostponedModel'] = ()):          # m: the whole annotation is a STRING (PEP 563 style); ms: a forward reference NESTED in a generic
+        ok = (m is None or isinstance(m, PostponedModel) or not validate)
+        ok_ms = (not validate) or all(isinstance(e_, PostponedModel) for e_ in ms)
+        seen.append((x, ctx.message.task_id, True) if ok and ok_ms else (x, ctx.message.task_id, ('string annotation not resolved: m arrived as ' + type(m).__name__) if not ok else ('forward reference inside List[...] not resolved: ms arrived as ' + repr(ms))))
     t.__globals__.setdefault('Optional', __import__('typing').Optional)
     # history: a message for the name arrives while it is still unknown (dropped), THEN the task is registered; every later delivery must execute
     try: await r.callback(b.formatter.dumps(TaskiqMessage(task_id='id-early', task_name='late', labels={}, labels_types=None, args=['41'], kwargs={})).message)
     except BaseException as e: seen.append((type(e).__name__, 'id-early', False))
     b.register_task(t, task_name='late')
     for i in range(2):
-        try: await r.callback(b.formatter.dumps(TaskiqMessage(task_id=f'id-{i}', task_name='late', labels={}, labels_types=None, args=['41'], kwargs={'m': {'v': 1}})).message)
+        try: await r.callback(b.formatter.dumps(TaskiqMessage(task_id=f'id-{i}', task_name='late', labels={}, labels_types=None, args=['41'], kwargs={'m': {'v': 1}, 'ms': [{'v': 2}, {'v': 3}]})).message)
         except BaseException as e: seen.append((type(e).__name__, f'id-{i}', False))
     return seen
 
@@ -246,6 +255,80 @@ async def isolation(shape):
     bad = {mid: v for mid, v in seen.items() if v != (mid, mid, mid)}
     return bad, seen
 
+async def kiq_model_arguments():
+    """end to end through the kicker (client side: pydantic / dataclass arguments are dumped) and the receiver (worker side: parsed back): models whose
+    fields have serialization aliases or default factories arrive with the caller's values, bound to the right parameters"""
+    import pydantic, typing
+    from taskiq import InMemoryBroker
+    from taskiq.abc.broker import AsyncBroker
+    AsyncBroker.global_task_registry = {}
+    class Aliased(pydantic.BaseModel):
+        user_id: int = pydantic.Field(serialization_alias='userId')
+        key: str = pydantic.Field(default_factory=lambda: _uuid.uuid4().hex)
+    b = InMemoryBroker(await_inplace=True); seen = []
+    async def t(raw: typing.Any, m: Aliased, plain=None): seen.append((raw, m, plain))
+    task = b.register_task(t, task_name='t')
+    a1 = Aliased(user_id=7); a2 = Aliased(user_id=8, key='given')
+    await task.kiq(a1, a1, plain=a2); await task.kiq(a2, m=a2)
+    want = [({'user_id': 7, 'key': a1.key}, a1, {'user_id': 8, 'key': 'given'}), ({'user_id': 8, 'key': 'given'}, a2, None)]
+    return seen, want
+
+async def same_id_twice():
+    """two deliveries carrying the SAME task id overlap in one worker (a broker redelivery, or Context.requeue / the retry middleware re-sending the id while
+    the first delivery is still in callback): each delivery is executed and acknowledged exactly once"""
+    from taskiq import InMemoryBroker, AckableMessage
+    from taskiq.abc.broker import AsyncBroker
+    from taskiq.receiver import Receiver
+    from taskiq.message import TaskiqMessage
+    AsyncBroker.global_task_registry = {}
+    b = InMemoryBroker(); ran = []; acks = []
+    async def t(x): ran.append(x); await asyncio.sleep(0.02); return x
+    b.register_task(t, task_name='t'); r = Receiver(b, run_startup=False, max_async_tasks=4)
+    def msg(i): return AckableMessage(data=b.formatter.dumps(TaskiqMessage(task_id='same-id', task_name='t', labels={}, labels_types=None, args=[i], kwargs={})).message, ack=lambda i=i: acks.append(i))
+    async def later(i, d): await asyncio.sleep(d); await r.callback(msg(i))
+    await asyncio.gather(later(0, 0), later(1, 0.005)); await r.callback(msg(2))
+    return sorted(ran), sorted(acks)
+
+def pp_add(a, b): return a + b          # module level: a sync task that a process pool can run
+
+async def process_pool():
+    """the worker option --use-process-pool / run_receiver_task(use_process_pool=True): sync task functions run in a ProcessPoolExecutor (what is handed to the
+    pool must be picklable); the function is invoked once and its return value stored"""
+    from concurrent.futures import ProcessPoolExecutor
+    from taskiq import InMemoryBroker
+    from taskiq.abc.broker import AsyncBroker
+    from taskiq.receiver import Receiver
+    from taskiq.message import TaskiqMessage
+    AsyncBroker.global_task_registry = {}
+    b = InMemoryBroker(); fn = globals()['pp_add'] if not hasattr(globals()['pp_add'], 'original_func') else globals()['pp_add'].original_func
+    globals()['pp_add'] = b.register_task(fn, task_name='pp_add'); raised = None          # what `@broker.task` does: the module attribute `pp_add` now names the decorated task, not the function
+    with ProcessPoolExecutor(1) as pool:
+        r = Receiver(b, executor=pool, run_startup=False)
+        try: await r.callback(b.formatter.dumps(TaskiqMessage(task_id='id-pp', task_name='pp_add', labels={}, labels_types=None, args=[1, 2], kwargs={})).message)
+        except BaseException as e: raised = f"{type(e).__name__}: {str(e)[:80]}"
+    res = b.result_backend.results.get('id-pp')
+    return (None if res is None else (res.is_err, res.return_value, type(res.error).__name__ if res.error is not None else None)), raised
+
+async def reserved_label_names():
+    """a message whose user labels are named like attributes of a log record / like `self`, handled by a worker whose `taskiq` loggers are ENABLED at DEBUG
+    (the CLI enables INFO by default): the message is executed, acknowledged and its result stored like any other"""
+    from taskiq import InMemoryBroker, AckableMessage
+    from taskiq.abc.broker import AsyncBroker
+    from taskiq.receiver import Receiver
+    from taskiq.message import TaskiqMessage
+    AsyncBroker.global_task_registry = {}
+    b = InMemoryBroker(); ran = []; acks = []
+    async def t(x): ran.append(x); return x
+    b.register_task(t, task_name='t'); r = Receiver(b, run_startup=False, max_async_tasks=2)
+    lg = logging.getLogger('taskiq'); old_level = lg.level; nh = logging.NullHandler(); lg.addHandler(nh); lg.setLevel(logging.DEBUG); logging.disable(logging.NOTSET); raised = None
+    try:
+        for i, lbl in enumerate(({'module': 'billing', 'name': 'n'}, {'args': 'a', 'message': 'm', 'process': 'p'}, {'self': 's', 'cls': 'c', 'task_name': 'other', 'message': 'x'})):
+            try: await r.callback(AckableMessage(data=b.formatter.dumps(TaskiqMessage(task_id=f'id-{i}', task_name='t', labels=dict(lbl), labels_types=None, args=[i], kwargs={})).message, ack=lambda i=i: acks.append(i)))
+            except BaseException as e: raised = f"{type(e).__name__}: {str(e)[:80]}"
+    finally: logging.disable(logging.CRITICAL); lg.setLevel(old_level); lg.removeHandler(nh)
+    stored = [k for k in ('id-0', 'id-1', 'id-2') if k in b.result_backend.results]
+    return ran, acks, stored, raised
+
 async def labels_isolation():
     """C06: messages with EQUAL label sets (the common case: every call of one task) must not share one labels dict - what one execution writes into
     its message's labels (Context.requeue does, middlewares do) must stay invisible to a concurrent and to a later execution."""
@@ -301,6 +384,7 @@ def monitor(cfg, ev, raised):
         if is_err != (want_err is not None) or err != want_err: f.append(f"C07: stored is_err={is_err} error={err} for outcome {oc}")
         if oc == 'return' and rv != repr(('ret', 41)): f.append(f"C07: stored return value {rv}")
         if lbl.get('lbl') != 7: f.append(f"C07: stored labels {lbl}")
+        if lbl.get('trace') != TRACE or type(lbl.get('amount')) is not type(AMOUNT) or lbl.get('amount') != AMOUNT: f.append(f"C07: a pre_execute middleware attached labels trace={TRACE!r} and amount={AMOUNT!r} to the message; the stored result's labels carry trace={lbl.get('trace')!r}, amount={lbl.get('amount')!r}")
     # C10: order and multiplicity
     for kind in ('pre_execute', 'post_execute'):
         got = [e[1] for e in ev if e[0] == kind]
@@ -416,6 +500,25 @@ def run(sc):
         bad, seen = asyncio.run(isolation(shape)); n += 1
         if bad or len(seen) != 2: fails.append({'key': 'isolation:' + shape, 'config': {'overlapping_messages': ['A', 'B'], 'dependency': shape},
                                 'failed_clauses': [f"C06: execution of message {mid} observed (dependency value, Context.task_id, label) = {v}" for mid, v in bad.items()] or ["C06: an execution did not complete"], 'trace': [str(seen)]})
+    seen_, want_ = asyncio.run(kiq_model_arguments()); n += 1
+    if seen_ != want_:
+        fails.append({'key': 'kiq-model-arguments', 'config': {'model': 'class Aliased(BaseModel): user_id: int = Field(serialization_alias="userId"); key: str = Field(default_factory=...)'},
+                      'failed_clauses': [f"C08: task.kiq(model, model, plain=model) with `def t(raw: Any, m: Aliased, plain=None)`: the function received {seen_}, expected {want_} (un-annotated / Any parameters get the field-name dict form, the annotated parameter the model with the caller's values)"], 'trace': [str(seen_)]})
+    ran, acks_ = asyncio.run(same_id_twice()); n += 1
+    if ran != [0, 1, 2] or acks_ != [0, 1, 2]:
+        fails.append({'key': 'same-id-twice', 'config': {'deliveries': ['same-id (overlapping)', 'same-id (overlapping)', 'same-id (afterwards)']},
+                      'failed_clauses': ([f"C01: three deliveries with one task id (two of them overlapping): the task function ran for deliveries {ran}"] if ran != [0, 1, 2] else []) + ([f"C02: three deliveries with one task id (two of them overlapping): acknowledged deliveries {acks_}, each must be acknowledged exactly once"] if acks_ != [0, 1, 2] else []), 'trace': [str((ran, acks_))]})
+    got, raised_ = asyncio.run(process_pool()); n += 1
+    if got != (False, 3, None):
+        fails.append({'key': 'process-pool', 'config': {'executor': 'ProcessPoolExecutor', 'task': 'def pp_add(a, b) (sync)', 'args': [1, 2]},
+                      'failed_clauses': [f"{pid}: a sync task run through a process pool (worker option --use-process-pool): pp_add(1, 2) returns 3, the stored result is (is_err, return_value, error) = {got} (callback raised: {raised_})" for pid in ('C01', 'C07')], 'trace': [str(got)]})
+    ran, acks_, stored, raised_ = asyncio.run(reserved_label_names()); n += 1
+    if ran != [0, 1, 2] or acks_ != [0, 1, 2] or len(stored) != 3:
+        cl = []
+        if ran != [0, 1, 2]: cl.append(f"C01: three messages with user labels named like log-record attributes (module, name, args, message, process) or like `self`, on a worker with its taskiq loggers enabled: the task function ran for {ran} of [0, 1, 2] (callback raised: {raised_})")
+        if acks_ != [0, 1, 2]: cl.append(f"C02: the same three messages: acknowledged {acks_} of [0, 1, 2] (callback raised: {raised_})")
+        if len(stored) != 3: cl.append(f"C07: the same three messages: results stored for {stored} only (callback raised: {raised_})")
+        fails.append({'key': 'reserved-label-names', 'config': {'labels': ['module/name', 'args/message/process', 'self/cls/task_name'], 'logging': 'taskiq loggers at DEBUG'}, 'failed_clauses': cl, 'trace': [str((ran, acks_, stored, raised_))]})
     bad, seen = asyncio.run(labels_isolation()); n += 1
     if bad or len(seen) != 3: fails.append({'key': 'isolation:equal-labels', 'config': {'messages': ['A (writes a label into its own message)', 'B (overlapping)', 'C (afterwards)'], 'labels': {'tenant': 'x', 'n': 1}},
                             'failed_clauses': [f"C06: message A wrote labels['touched'] into ITS message; the execution of message {mid} (same label set, own message) saw labels {v}" for mid, v in bad.items()] or ["C06: an execution did not complete"], 'trace': [str(seen)]})
